@@ -102,6 +102,8 @@ func recoverFile(info types.SegmentInfo, wf types.WritableFile, bufPool *sync.Po
 func (w *Writer) initEmpty() error {
 	// Write header into write buffer to be written out with the first commit.
 	w.writer.writeOffset = 0
+	// An empty segment is never sealed, whatever frames recovery scanned past.
+	w.writer.indexStart = 0
 	w.ensureBufCap(fileHeaderLen)
 	w.writer.commitBuf = w.writer.commitBuf[:fileHeaderLen]
 
@@ -176,6 +178,11 @@ func (w *Writer) recoverTail() error {
 
 	// Whichever path we take, fix up the commitIdx before we leave
 	defer func() {
+		// An index frame at or beyond the recovered write cursor belongs to a
+		// torn batch that was discarded, so this segment is not sealed.
+		if w.writer.indexStart >= uint64(w.writer.writeOffset) {
+			w.writer.indexStart = 0
+		}
 		ofs := w.getOffsets()
 		if len(ofs) > 0 {
 			// Non atomic is OK because this file is not visible to any other threads
